@@ -12,6 +12,8 @@ Main results (all for EVERY expression tree, by structural induction — no dept
 * `parse_inner`      : the same for an operand `inner F e` at ANY precedence `p`, when `rest` does not begin
                         with an operator binding tighter than `p`
 * `parseExpression_printTop` : `parseExpression (printTop F e) = .ok (norm e) []`
+* `eval_norm`        : under `LitLaws`, `norm e` evaluates to what `e` evaluates to, for all assignments
+* `norm_eq_self`, `norm_parserShaped`, `norm_norm` : trees of the parser's shape are fixed points of `norm`
 
 Hypotheses: `finiteLits e` (finite literals without `-0.0` components) and the NumTok hypothesis
 `numTokOk F e` (see `QV.ExprPrint`).
@@ -865,5 +867,106 @@ theorem eval_norm (L : LitLaws K den) (ρ : VarEnv K) (μ : MemEnv K) :
   | var x => intro _; rfl
 
 end Values
+
+/-! ## `norm` is a normal form: trees of the shape the parser produces are fixed points -/
+
+/-- the shape of the trees `parse_expression` produces from printed text: no prefix plus; every literal is
+a non-negative real `⟨x, +0⟩` or a non-negative imaginary `⟨+0, y⟩` -/
+def parserShaped : PExpr → Bool
+  | .call _ e => parserShaped e
+  | .bin l _ r => parserShaped l && parserShaped r
+  | .number z => (z.im == 0 && decide (z.re < two63)) || (z.re == 0 && decide (z.im < two63))
+  | .pre .plus _ => false
+  | .pre .minus e => parserShaped e
+  | _ => true
+
+theorem numTree_eq_self (z : CBits)
+    (h : ((z.im == 0 && decide (z.re < two63)) || (z.re == 0 && decide (z.im < two63))) = true) :
+    numTree z = .number z := by
+  obtain ⟨re, im⟩ := z
+  have h63 : two63 = 9223372036854775808 := rfl
+  have hz0 : fZero 0 = true := rfl
+  have hs0 : fSign 0 = false := rfl
+  simp only [Bool.or_eq_true, Bool.and_eq_true, beq_iff_eq, decide_eq_true_eq] at h
+  rcases h with ⟨rfl, hlt⟩ | ⟨rfl, hlt⟩
+  · by_cases h0 : re = 0
+    · subst h0; simp [numTree, hz0]
+    · have hz : fZero re = false := by simp [fZero, h63]; omega
+      have hs : fSign re = false := by simp [fSign, h63]; omega
+      simp [numTree, hz, hs, hz0]
+  · by_cases h0 : im = 0
+    · subst h0; simp [numTree, hz0]
+    · have hz : fZero im = false := by simp [fZero, h63]; omega
+      have hs : fSign im = false := by simp [fSign, h63]; omega
+      simp [numTree, hz, hs, hz0]
+
+/-- a tree of the parser's shape is its own normal form (so a parsed program's expressions print to
+tokens that parse back to the very same trees) -/
+theorem norm_eq_self : ∀ e : PExpr, parserShaped e = true → norm e = e := by
+  intro e
+  induction e with
+  | address r => intro _; rfl
+  | call f x ih => intro h; simp only [parserShaped] at h; simp [norm, ih h]
+  | bin l o r ihl ihr =>
+    intro h; simp only [parserShaped, Bool.and_eq_true] at h; simp [norm, ihl h.1, ihr h.2]
+  | number z => intro h; simp only [parserShaped] at h; simp [norm, numTree_eq_self z h]
+  | pi => intro _; rfl
+  | pre op x ih =>
+    intro h
+    cases op with
+    | plus => simp [parserShaped] at h
+    | minus => simp only [parserShaped] at h; simp [norm, ih h]
+  | var x => intro _; rfl
+
+
+theorem sub_lt_of_plain (b : Nat) (h : plainBits b = true) : b - two63 < two63 := by
+  have h63 : two63 = 9223372036854775808 := rfl
+  have h64 : two64 = 18446744073709551616 := rfl
+  simp [plainBits] at h
+  omega
+
+theorem lt_of_not_sign (b : Nat) (h : fSign b = false) : b < two63 := by
+  simpa [fSign] using h
+
+theorem numTree_parserShaped (z : CBits) (hre : plainBits z.re = true) (him : plainBits z.im = true) :
+    parserShaped (numTree z) = true := by
+  obtain ⟨re, im⟩ := z
+  simp only at hre him
+  have a1 := sub_lt_of_plain re hre
+  have a2 := sub_lt_of_plain im him
+  have hz0 : (0:Nat) < two63 := by decide
+  rcases plain_cases re hre with ⟨rfl, r1, r2, r3, r4⟩ | ⟨r1, r2, r3, r4, r5⟩ | ⟨r1, r2, r3, r4, r5⟩ <;>
+  rcases plain_cases im him with ⟨rfl, i1, i2, i3, i4⟩ | ⟨i1, i2, i3, i4, i5⟩ | ⟨i1, i2, i3, i4, i5⟩
+  all_goals
+    try have b1 := lt_of_not_sign _ r2
+    try have b2 := lt_of_not_sign _ i2
+    simp [numTree, parserShaped, *]
+
+/-- the re-parsed tree has the parser's shape -/
+theorem norm_parserShaped : ∀ e : PExpr, finiteLits e = true → parserShaped (norm e) = true := by
+  intro e
+  induction e with
+  | address r => intro _; rfl
+  | call f x ih => intro h; exact ih (by simpa [finiteLits, allLits] using h)
+  | bin l o r ihl ihr =>
+    intro h
+    simp only [finiteLits, allLits, Bool.and_eq_true] at h
+    simp [norm, parserShaped, ihl h.1, ihr h.2]
+  | number z =>
+    intro h
+    simp only [finiteLits, allLits, Bool.and_eq_true] at h
+    exact numTree_parserShaped z h.1 h.2
+  | pi => intro _; rfl
+  | pre op x ih =>
+    intro h
+    have hx := ih (by simpa [finiteLits, allLits] using h)
+    cases op with
+    | plus => simpa [norm] using hx
+    | minus => simpa [norm, parserShaped] using hx
+  | var x => intro _; rfl
+
+/-- `norm` is idempotent: a second print → parse round changes nothing -/
+theorem norm_norm (e : PExpr) (h : finiteLits e = true) : norm (norm e) = norm e :=
+  norm_eq_self _ (norm_parserShaped e h)
 
 end QV.ExprRoundTrip
